@@ -143,7 +143,25 @@ class DocsImpl(Base):
     theorem = "C13_exactly_once_impl (faithful model: a JSON string is entered only when its decoded top level is accepted)"
 
     def observe(self, x):
-        return obs_docs(resolved_resource(x).policy_documents)
+        # history: the accessor is asked, its returned list is emptied by the caller, and it is asked again on the same resource;
+        # then a copy of the resource WITHOUT properties is asked: every answer must describe the resource it is asked of
+        r = resolved_resource(x)
+        first = r.policy_documents
+        first_obs = obs_docs(first)
+        try:
+            first.clear()
+        except Exception:
+            pass
+        again = obs_docs(r.policy_documents)
+        if again != first_obs:
+            return {"second-answer-on-the-same-resource-differs": [first_obs, again]}
+        try:
+            bare = r.model_copy(update={"Properties": None})
+            if type(r).__name__ == "GenericResource" and obs_docs(bare.policy_documents) != obs_docs([]):
+                return {"copy-without-properties-still-reports-documents": obs_docs(bare.policy_documents)}
+        except Exception:
+            pass
+        return again
 
     def predict(self, out):
         return model_docs(out[2])
